@@ -42,6 +42,7 @@ const (
 	opCrit    = 0x1225
 	opReadCD  = 0x1226
 	opCreate  = 0x1228
+	opWrite   = 0x1229
 
 	szOpen    = 16
 	szOpenDir = 4
@@ -162,6 +163,7 @@ type scenario struct {
 	Path   string    `json:"path,omitempty"`    // path of the STAT requests
 	Idle   string    `json:"idle,omitempty"`    // disabled: length of the silence
 	Mask   int       `json:"held_mask,omitempty"` // with Held: which handles (1 directory, 2 file, 4 write file; 0 = directory + file)
+	Ann    uint32    `json:"announced,omitempty"` // stalled inside the payload of a WRITE that announced this many bytes
 	Op     string    `json:"op,omitempty"`      // active: what the requests are (default stat; crit, cd, read, mix need Held)
 	LateNs int64     `json:"late_ns,omitempty"` // active: the server goroutine is held this long between reading a command and reading its path (busy scheduler)
 }
@@ -303,6 +305,14 @@ func genScenarios(r *rand.Rand, thorough bool) []*scenario {
 			for i := 0; i < pick(22, 230); i++ {
 				k := []int{0, 0, 1, 3}[r.Intn(4)]
 				add(&scenario{Kind: stallKind(pos), K: k, GapsNs: randGaps(r, k, T), Pos: pos, Writes: randWrites(r, pos, T), Path: randPath(r)}, T)
+			}
+		}
+		// (3c) stalled inside the payload of a WRITE (any announced length: the request is incomplete all the same)
+		for _, ann := range []uint32{100, 65536, 1 << 20, 1<<32 - 1} {
+			for i := 0; i < pick(4, 20); i++ {
+				k := []int{0, 1}[r.Intn(2)]
+				pos := 16 + r.Intn(64)
+				add(&scenario{Kind: fmt.Sprintf("stall-write-payload-%d", ann), Ann: ann, K: k, GapsNs: randGaps(r, k, T), Pos: pos, Writes: randWrites(r, pos, T), Path: randPath(r)}, T)
 			}
 		}
 		// (3b) trickle: one byte every 0.3T, in the command or in the path
@@ -745,7 +755,13 @@ func runScenario(t *testing.T, sc *scenario) *outcome {
 		return out
 
 	default:
-		x.awaitCut(t0, stat, sc.Writes)
+		req := stat
+		if sc.Ann > 0 {
+			req = make([]byte, 16+100)
+			binary.BigEndian.PutUint16(req[0:], opWrite)
+			binary.BigEndian.PutUint32(req[4:], sc.Ann)
+		}
+		x.awaitCut(t0, req, sc.Writes)
 		return out
 	}
 }
